@@ -249,3 +249,10 @@ def run(ck):
         cur = [(l, r) for l, r, s in __import__('props.common', fromlist=['assignments']).assignments(rs) if rs.nodes[rs.strip(l)].get('n') == 'current_key']
         okh = okh and len(cur) == 1 and any(j == rs.strip(hm[0]) for j in value_sources(rs, cur[0][1]))
     ck.ob('C12.material', 'C12.material/key-is-hmac', okh, rs.loc(), 'the session key is HmacSha256::compute(shared_secret.bytes, material) and nothing else')
+
+    # ---- an agreed key stays until it is replaced: the key manager never drops a session context (no erase / clear / eviction) ----------------------
+    PKM = ck.prog(['src/network/KeyManager.cpp'])
+    drops = [(f, i) for f in PKM.fns if f.file.endswith('KeyManager.cpp') for i in f.walk()
+             if f.nodes[i]['k'] == 'CXXMemberCallExpr' and (f.nodes[i].get('callee') or '').split('::')[-1] in ('erase', 'clear', 'extract') and 'unordered_map' in (f.nodes[i].get('callee') or '')]
+    ck.ob('C12.install', 'C12.install/no-context-eviction', not drops, drops[0][0].loc(drops[0][1]) if drops else '',
+          'KeyManager never erases a session context (a bounded table that evicts the oldest peer leaves that peer holding a key this node no longer has)')
